@@ -142,19 +142,19 @@ def gen_replay(chk, tier, wd):
   OutFile = %s
   WithSnapshots = FALSE
 SPECIFICATION Spec
-INVARIANTS Tiling Monotone NonEmptyUnlessEof OneEof InBuffer Emit
+INVARIANTS Tiling Monotone NonEmptyUnlessEof OneEof InBuffer DotModeSound DotIdentTotal Emit
 CHECK_DEADLOCK FALSE
 """ % (", ".join(str(x) for x in SIGMA24), cfg["gen_len"], common.tla_string(out))
     r = tlc_must_pass("LexGen", text, os.path.join(wd, "lexgen"), workers=min(16, common.NCPU), heap="12g", timeout=3000)
     chk.add_states(r)
     # design check with snapshots (Clone/Restore) on a smaller alphabet
     text2 = """CONSTANTS
-  Alphabet = {97, 39, 92, 10, 59, 32, 46, 49, 47, 42}
+  Alphabet = {97, 39, 92, 10, 59, 32, 46, 49, 47, 42, 41}
   MaxLen = 3
   OutFile = ""
   WithSnapshots = TRUE
 SPECIFICATION Spec
-INVARIANTS Tiling Monotone NonEmptyUnlessEof OneEof InBuffer SnapshotsSound
+INVARIANTS Tiling Monotone NonEmptyUnlessEof OneEof InBuffer DotModeSound SnapshotsSound
 CHECK_DEADLOCK FALSE
 """
     r2 = tlc_must_pass("LexGen", text2, os.path.join(wd, "lexgen2"), workers=8, heap="6g", timeout=1200, name="LexGenSnap")
